@@ -31,8 +31,8 @@ pub fn prop() -> Prop {
         id: "C18",
         level: "exploration",
         runs: |t| match t {
-            Tier::Quick => 640,
-            Tier::Thorough => 12000,
+            Tier::Quick => 3200,
+            Tier::Thorough => 40000,
         },
         generate,
         exec,
